@@ -5,7 +5,8 @@ import FP.Spec.ErrModels
 `check.klae` / `check.kmpe`: given the instance (same JSON as `lp.klae`), the returned `routes`
 (inner paths, as `get_solution()` gives them), `weights` and — for k-Min-Path-Error — `slacks`,
 evaluate the definitions of `FP/Spec/ErrModels.lean` (`LAE.absErr`, `LAE.totalErr`, `MPE.SlackOK`,
-`MPE.totalSlack`). `k` in the request is the number of returned routes.
+`MPE.totalSlack`). `k` in the request is the number of returned routes. With `edge_errors` (the dictionary returned by
+`get_solution()`), `check.klae` also evaluates `reportedObjective`, the model of `get_objective_value()`.
 The harness compares the answers with its own recomputation (written against the property text), so
 that the vocabulary in which the theorems are stated is tied to what the oracle checks.
 -/
@@ -29,7 +30,15 @@ def handleErrCheck (op : String) (j : Json) : Option (Except String Json) :=
        ("errors", Json.arr (errs.map fun p => edgeRatJson p.1 [p.2]).toArray),
        ("total_scaled", Json.str (ratStr (LAE.totalErr inp P w))),
        ("total_unscaled", Json.str (ratStr (errs.map (·.2)).sum))]
-    if op = "check.klae" then return Json.mkObj common
+    if op = "check.klae" then
+      -- optional: the `edge_errors` dictionary of `get_solution()` → the model of `get_objective_value()`
+      match (jList asEdgeRat j "edge_errors").toOption with
+      | none => return Json.mkObj common
+      | some ee =>
+        let a : Asg := fun v => match v with
+          | .uv "ee" u v => lookupD ee (u, v) 0
+          | _ => 0
+        return Json.mkObj (common ++ [("reported_objective", Json.str (ratStr (reportedObjective inp a)))])
     else
       let sls ← jList asRat j "slacks"
       let sl : Nat → Rat := fun i => sls.getD i 0
